@@ -649,9 +649,15 @@ pub fn emit_unit_test(cfg: &LevelCfg, hist: &[u16], message: &str) -> String {
     t.push_str("    let show = |l: &PriceLevel, what: &str| {\n        let orders = l.iter_orders();\n        let (sv, sh): (u128, u128) = orders.iter().fold((0, 0), |a, o| (a.0 + o.visible_quantity() as u128, a.1 + o.hidden_quantity() as u128));\n        println!(\"{what}: visible={} hidden={} count={} listed=[{}]\", l.visible_quantity(), l.hidden_quantity(), l.order_count(), orders.iter().map(|o| o.to_string()).collect::<Vec<_>>().join(\" | \"));\n        assert_eq!((l.visible_quantity() as u128, l.hidden_quantity() as u128, l.order_count()), (sv, sh, orders.len()), \"aggregates != sums over listed orders after {what}\");\n    };\n");
     let mut level_var = "level".to_string();
     let mut k = 0;
+    if let Some(ms) = cfg.clock_step_ms {
+        t.push_str(&format!("    // found under a virtual clock that advances {ms} ms at every reading: real time is let pass between the steps\n"));
+    }
     for h in hist {
         let op = cfg.ops[*h as usize];
         let name = cfg.op_name(&op);
+        if let Some(ms) = cfg.clock_step_ms {
+            t.push_str(&format!("    std::thread::sleep(std::time::Duration::from_millis({}));\n", ms.min(2_000)));
+        }
         match op {
             Op::Add(id, tm) => {
                 let o = cfg.make_order(id, tm);
